@@ -4,6 +4,7 @@ import (
 	"fmt"
 	"math"
 	"math/big"
+	"math/bits"
 	"sort"
 )
 
@@ -154,6 +155,54 @@ type WQ struct {
 	Cum  []*big.Rat // Cum[k] = total weight of all points <= Vals[k]
 	W    *big.Rat
 	Ties bool // some value occurs more than once
+	// Grid: every weight is an integer multiple of one power of two 2^G and
+	// W <= 2^53 * 2^G. Then the sum of ANY subset of the weights, in any
+	// order and any bracketing (forward, backward, pairwise, compensated), is
+	// an integer multiple of 2^G below 2^53 * 2^G, hence exactly
+	// representable: no addition of weights ever rounds.
+	Grid bool
+	G    int
+}
+
+// lsbExp is the exponent of the lowest set bit of the finite non-zero x.
+func lsbExp(x float64) int {
+	fr, e := math.Frexp(math.Abs(x))
+	m := uint64(fr * (1 << 53)) // exact: fr has 53 significant bits
+	return e - 53 + bits.TrailingZeros64(m)
+}
+
+func pow2Rat(e int) *big.Rat {
+	if e >= 0 {
+		return new(big.Rat).SetInt(new(big.Int).Lsh(big.NewInt(1), uint(e)))
+	}
+	return new(big.Rat).SetFrac(big.NewInt(1), new(big.Int).Lsh(big.NewInt(1), uint(-e)))
+}
+
+// QExact classifies q (0 < q < 1) on Grid weights. prod: q*W is exactly
+// representable; compl: 1-q and (1-q)*W are exactly representable as well.
+// With prod, an evaluation that compares cumulative weights with fl(q W), or
+// subtracts the weights from fl(q W) one after the other (a positive
+// difference t-S of a float t and a grid sum S is below t on t's own bit grid,
+// hence exact; the first negative one keeps its sign under rounding), or
+// compares fl(cum/W) with q (cum > q W on the grid means cum - q W >=
+// lsb(q W) > q W 2^-53, i.e. cum/W is more than half an ulp above q) decides
+// every comparison as the real numbers do. compl extends that to evaluations
+// from the top that use (1-q) W.
+func (t *WQ) QExact(q float64) (prod, compl bool) {
+	if !t.Grid || !(q > 0 && q < 1) {
+		return false, false
+	}
+	qr := new(big.Rat).SetFloat64(q)
+	_, prod = new(big.Rat).Mul(qr, t.W).Float64()
+	if !prod {
+		return false, false
+	}
+	c := new(big.Rat).Sub(big.NewRat(1, 1), qr)
+	if _, ok := c.Float64(); !ok {
+		return true, false
+	}
+	_, compl = c.Mul(c, t.W).Float64()
+	return true, compl
 }
 
 // NewWQ builds the reference from (value, weight) pairs in any order.
@@ -164,6 +213,16 @@ func NewWQ(xs, ws []float64) *WQ {
 	}
 	sort.SliceStable(idx, func(a, b int) bool { return xs[idx[a]] < xs[idx[b]] })
 	t := &WQ{W: new(big.Rat)}
+	grid := len(ws) > 0
+	for k, wt := range ws {
+		if !(wt > 0) || math.IsInf(wt, 0) {
+			grid = false // outside the statement's domain
+			continue
+		}
+		if g := lsbExp(wt); k == 0 || g < t.G {
+			t.G = g
+		}
+	}
 	for _, i := range idx {
 		t.W = new(big.Rat).Add(t.W, new(big.Rat).SetFloat64(ws[i]))
 		if k := len(t.Vals); k > 0 && t.Vals[k-1] == xs[i] {
@@ -174,6 +233,7 @@ func NewWQ(xs, ws []float64) *WQ {
 			t.Cum = append(t.Cum, t.W)
 		}
 	}
+	t.Grid = grid && t.W.Cmp(pow2Rat(53+t.G)) <= 0
 	return t
 }
 
@@ -315,6 +375,32 @@ func C10SelfTest() error {
 	}
 	if wq.CumQ(1) != 0.5 {
 		return fmt.Errorf("CumQ")
+	}
+	// exactness classes: W = 8 on the grid 2^0
+	if !wq.Grid || wq.G != 0 {
+		return fmt.Errorf("NewWQ grid: %v %d", wq.Grid, wq.G)
+	}
+	type ec struct {
+		q           float64
+		prod, compl bool
+	}
+	for _, c := range []ec{{0.5, true, true}, {0.5 - 0x1p-40, true, true}, {math.Nextafter(0.25, 0), true, false},
+		{math.Nextafter(0.75, 0), true, true}, {0x1p-60 + 0x1p-112, true, false}, {0, false, false}, {1, false, false}} {
+		if p, k := wq.QExact(c.q); p != c.prod || k != c.compl {
+			return fmt.Errorf("QExact(%v) = %v,%v want %v,%v", c.q, p, k, c.prod, c.compl)
+		}
+	}
+	if p, _ := NewWQ([]float64{1, 2, 3}, []float64{1, 1, 1}).QExact(math.Nextafter(0.5, 0)); p { // 3 q needs 54 bits
+		return fmt.Errorf("QExact: 3*(0.5-2^-54) taken as representable")
+	}
+	if g := NewWQ([]float64{1, 2}, []float64{0.1, 0.2}); g.Grid { // 0.1+0.2 > 2^53 * 2^-55, the grid of 0.1
+		return fmt.Errorf("NewWQ grid on {0.1,0.2}")
+	}
+	if g := NewWQ([]float64{1, 2}, []float64{0x1p-200, 3 * 0x1p-200}); !g.Grid || g.G != -200 {
+		return fmt.Errorf("NewWQ grid on scaled weights")
+	}
+	if lsbExp(1) != 0 || lsbExp(0.75) != -2 || lsbExp(5e-324) != -1074 || lsbExp(6) != 1 {
+		return fmt.Errorf("lsbExp")
 	}
 	return nil
 }
